@@ -73,6 +73,8 @@ input Filter {
   minAge: Int = 0
   names: [String]
   size: Size
+  tag: ID
+  limit: Int = 10
 }
 `
 
@@ -102,12 +104,27 @@ type FaultPlan struct {
 
 // Fault kinds for resolver invocations.
 const (
-	FaultError      = "error"       // plain error
-	FaultGGQLError  = "ggql_error"  // *ggql.Error with extensions
-	FaultErrorGroup = "error_group" // ggql.Errors with two members
-	FaultNthError   = "nth_error"   // AnyResolver.Nth error
-	FaultBadLeaf    = "bad_leaf"    // un-coercible leaf value
+	FaultError      = "error"                       // plain error
+	FaultGGQLError  = "ggql_error"                  // *ggql.Error with extensions
+	FaultErrorGroup = "error_group"                 // ggql.Errors with two members
+	FaultNthError   = "nth_error"                   // AnyResolver.Nth error
+	FaultBadLeaf    = "bad_leaf"                    // un-coercible leaf value
+	FaultGroupExt   = "error_group_with_extensions" // ggql.Errors whose members are *ggql.Error with extensions
+	FaultNestedGrp  = "nested_error_group"          // ggql.Errors{e, ggql.Errors{e, e}}: three entries
+	FaultBadList    = "bad_list_elements"           // a [scalar] field returns []interface{}{ok, bad, ok, bad}: two coercion failures in one list
 )
+
+// IsScalarListField tells whether a zoo field is a list of bare scalars.
+func IsScalarListField(field string) bool { return field == "tags" || field == "nums" }
+
+// BadListFor is the value a scalar-list field returns under FaultBadList and
+// the data expected in the response for it.
+func BadListFor(field string) (value []interface{}, expect []interface{}) {
+	if field == "nums" {
+		return []interface{}{10, badLeaf{}, 12, badLeaf{}}, []interface{}{10, nil, 12, nil}
+	}
+	return []interface{}{"g0", badLeaf{}, "g2", badLeaf{}}, []interface{}{"g0", nil, "g2", nil}
+}
 
 // Call is one logged resolver invocation.
 type Call struct {
@@ -126,6 +143,7 @@ type Fired struct {
 	Kind    string
 	Members int // number of error entries the failure must produce
 	Tag     string
+	Field   string
 }
 
 // Tracker counts resolver invocations of one request, injects the faults of a
@@ -174,6 +192,9 @@ func (tr *Tracker) enter(typ, field string, args map[string]interface{}, path st
 	if kind == "" {
 		return "", nil
 	}
+	if kind == FaultBadList && (!IsScalarListField(field) || tr.NoBadLeaf || path == "") {
+		kind = FaultError
+	}
 	if kind == FaultBadLeaf && (!leaf || tr.NoBadLeaf) {
 		kind = FaultError
 	}
@@ -184,7 +205,7 @@ func (tr *Tracker) enter(typ, field string, args map[string]interface{}, path st
 		kind = FaultNthError
 	}
 	tag := "#" + strconv.Itoa(tr.N) + "#"
-	f := Fired{N: tr.N, Path: path, Kind: kind, Members: 1, Tag: tag}
+	f := Fired{N: tr.N, Path: path, Kind: kind, Members: 1, Tag: tag, Field: field}
 	defer func() { tr.Fired = append(tr.Fired, f) }()
 	switch kind {
 	case FaultError:
@@ -196,6 +217,18 @@ func (tr *Tracker) enter(typ, field string, args map[string]interface{}, path st
 		return kind, ggql.Errors{errors.New("injected member 1 " + tag), errors.New("injected member 2 " + tag)}
 	case FaultNthError:
 		return kind, errors.New("injected nth failure " + tag)
+	case FaultGroupExt:
+		f.Members = 2
+		return kind, ggql.Errors{
+			&ggql.Error{Base: errors.New("injected member 1 " + tag), Extensions: map[string]interface{}{"code": "E" + strconv.Itoa(tr.N) + "m1"}},
+			&ggql.Error{Base: errors.New("injected member 2 " + tag), Extensions: map[string]interface{}{"code": "E" + strconv.Itoa(tr.N) + "m2"}},
+		}
+	case FaultNestedGrp:
+		f.Members = 3
+		return kind, ggql.Errors{errors.New("injected member 1 " + tag),
+			ggql.Errors{errors.New("injected member 2 " + tag), errors.New("injected member 3 " + tag)}}
+	case FaultBadList:
+		f.Members = 2
 	}
 	return kind, nil
 }
@@ -625,6 +658,10 @@ func (n *INode) Resolve(field *ggql.Field, args map[string]interface{}) (interfa
 	if kind == FaultBadLeaf {
 		return badLeaf{}, nil
 	}
+	if kind == FaultBadList {
+		bl, _ := BadListFor(field.Name)
+		return bl, nil
+	}
 	return wrapI(n.q, v, path, n.q.UseListResolver), nil
 }
 
@@ -699,6 +736,10 @@ func (a *ZooAny) Resolve(obj interface{}, field *ggql.Field, args map[string]int
 	}
 	if kind == FaultBadLeaf {
 		return badLeaf{}, nil
+	}
+	if kind == FaultBadList {
+		bl, _ := BadListFor(field.Name)
+		return bl, nil
 	}
 	if isNilPtr(v) {
 		return nil, nil
